@@ -57,3 +57,58 @@ package lunarcontext
 // raw keys written by quota.storeCountIntoContext ("<key>_currentCount", "<key>_spilloverCount") never collide with counter keys
 //@ axiom[rawkey-c] forall(a, string, forall(s, string, forall(b, string, sprintf("%s_%s", a, s) != sprintf("%s // %s", b, "_counter"))))
 //@ axiom[rawkey-w] forall(a, string, forall(s, string, forall(b, string, sprintf("%s_%s", a, s) != sprintf("%s // %s", b, "_window_start"))))
+
+// ---------------------------------------------------------------- string sets (concurrency quotas, C02)
+//@ ghost field memoryState.gIsSet gset[string]        // keys that hold a []string set
+//@ ghost field memoryState.gMax gmap[string]int64     // the maximum size the set of a key is used with (fixed)
+//@ ghost func hasS(p *memoryState[int64], k string) bool = smapin(cmOf(p).ctx, k)
+//@ ghost func setOf(p *memoryState[int64], k string) []string = smapget(cmOf(p).ctx, k).([]string)
+//@ ghost func cardOf(p *memoryState[int64], k string) int = ite(hasS(p, k), len(setOf(p, k)), 0)
+
+//@ monitor memoryState.mutex
+//@   self p
+//@   invariant[kinds-disjoint] forall(k, string, forall(j, string, p.gIsSet[k] ==> k != ckey(j) && k != wkey(j)))
+//@   invariant[set-typed] forall(k, string, p.gIsSet[k] && hasS(p, k) ==> typeis(smapget(cmOf(p).ctx, k), []string) && len(setOf(p, k)) >= 0)
+//@   invariant[set-bound] forall(k, string, p.gIsSet[k] && hasS(p, k) ==> len(setOf(p, k)) <= p.gMax[k])
+
+//@ func (*memoryState).AtomicSAddWithMaxValuesAllowed
+//@   prop C02
+//@   instantiate T=int64
+//@   params key, value, maxAllowed
+//@   results added, err
+//@   requires msValid(p) && p.gIsSet[key] && maxAllowed == p.gMax[key] && maxAllowed >= 0 && key != ""
+//@   modifies smapof(cmOf(p).ctx), now
+//@   ensures[ok]    err == nil
+//@   ensures[add]   seq: added ==> old(cardOf(p, key)) < maxAllowed && hasS(p, key) && len(setOf(p, key)) == old(cardOf(p, key)) + 1 && setOf(p, key)[old(cardOf(p, key))] == value && forall(j, 0, old(cardOf(p, key)), setOf(p, key)[j] == old(setOf(p, key))[j])
+//@   ensures[full]  seq: !added ==> old(cardOf(p, key)) >= maxAllowed && cardOf(p, key) == old(cardOf(p, key)) && forall(j, 0, cardOf(p, key), setOf(p, key)[j] == old(setOf(p, key))[j])
+//@   ensures[bound] conc: hasS(p, key) && len(setOf(p, key)) <= maxAllowed
+//@   ensures[frame] seq: forall(k, string, k != key ==> (hasS(p, k) <==> old(hasS(p, k))) && smapget(cmOf(p).ctx, k) == old(smapget(cmOf(p).ctx, k)))
+
+//@ func (*memoryState).SRem
+//@   prop C02
+//@   instantiate T=int64
+//@   requires msValid(p) && p.gIsSet[key] && key != ""
+//@   modifies smapof(cmOf(p).ctx), now
+//@   loop 1 invariant[not-yet]  forall(j, 0, idx1, smapget(cmOf(p).ctx, key).([]string)[j] != value)
+//@   loop 1 invariant[set-same] set == smapget(cmOf(p).ctx, key)
+//@   loop 1 modifies nothing
+//@   ensures[ok] result == nil
+//@   ensures[absent-noop]  seq: !old(hasS(p, key)) ==> !hasS(p, key)
+//@   ensures[not-member]   seq: old(hasS(p, key)) && forall(j, 0, old(len(setOf(p, key))), old(setOf(p, key))[j] != value) ==> len(setOf(p, key)) == old(len(setOf(p, key))) && forall(j, 0, len(setOf(p, key)), setOf(p, key)[j] == old(setOf(p, key))[j])
+//@   ensures[removed-first] seq: old(hasS(p, key)) && exists(j, 0, old(len(setOf(p, key))), old(setOf(p, key))[j] == value) ==> len(setOf(p, key)) == old(len(setOf(p, key))) - 1 && old(setOf(p, key))[i] == value && forall(j, 0, i, setOf(p, key)[j] == old(setOf(p, key))[j] && old(setOf(p, key))[j] != value) && forall(j, i, len(setOf(p, key)), setOf(p, key)[j] == old(setOf(p, key))[j+1])
+//@   ensures[never-grows] conc: hasS(p, key) ==> len(setOf(p, key)) <= atlock(cardOf(p, key))
+//@   ensures[frame] seq: forall(k, string, k != key ==> (hasS(p, k) <==> old(hasS(p, k))) && smapget(cmOf(p).ctx, k) == old(smapget(cmOf(p).ctx, k)))
+
+//@ func (*memoryState).SCard
+//@   prop C02
+//@   instantiate T=int64
+//@   requires msValid(p) && p.gIsSet[key]
+//@   modifies now
+//@   ensures[card] seq: result1 == nil && result0 == cardOf(p, key)
+
+//@ func (*memoryState).SMembers
+//@   prop C02
+//@   instantiate T=int64
+//@   requires msValid(p) && p.gIsSet[key]
+//@   modifies now
+//@   ensures[members] seq: result1 == nil && len(result0) == cardOf(p, key) && (hasS(p, key) ==> forall(j, 0, len(result0), result0[j] == setOf(p, key)[j]))
